@@ -294,8 +294,11 @@ def replay_case(kind, case):
             except SpilException:
                 pass
             model = tuple(sorted(set(model) | {op[1]}))
-        out = check_state(C, ents, model)
-        if noreset:
+            if noreset:
+                out = check_state(C, ents, model)     # observations after every step, no reset anywhere
+        if not noreset:
+            out = check_state(C, ents, model)
+        else:
             for v in out:
                 v["signature"] = "no-reset/" + v["signature"]
     finally:
